@@ -816,6 +816,57 @@ def _sc_disjoint_fused(rng, sym, cfg):
     return dict(fn=fn, oracle=oracle, operands=[a, b], describe=dict(sym=sym, op='disjoint_fused', mode=mode, what=what, q=q, d=d))
 
 
+def _sc_relabel_fused(rng, sym, cfg):
+    """+ / - / vdot / tensordot of hard-fused operands whose fused sub-legs have IDENTICAL dimension tuples but DIFFERENT charges
+    (the union of the two fusion histories is needed although no dimension differs)"""
+    k = rng.randint(2, 3)
+    la = [rleg(rng, cfg, sym, maxD=2, nsec=2) for _ in range(k)]
+    lb = list(la)
+    changed = False
+    for i in rng.sample(range(k), k):
+        for _ in range(30):
+            cand = perturb_leg(rng, cfg, sym, la[i])
+            if cand.D == la[i].D and cand.t != la[i].t:
+                lb[i] = cand
+                changed = True
+                break
+        if changed and rng.random() < 0.6:
+            break
+    if not changed:
+        raise Skip('no relabelling found')
+    x = rleg(rng, cfg, sym, maxD=2)
+    n = allowed_charge(rng, cfg, sym, [x] + la)
+    a = rtensor(rng, cfg, [x] + la, n=n)
+    b = rtensor(rng, cfg, [x] + lb, n=n)
+    if a.size == 0 or b.size == 0:
+        raise Skip('empty operand')
+    what = rng.choice(['add', 'sub', 'vdot', 'dot'])
+    inter = []
+
+    def fn():
+        fa = a.fuse_legs(axes=(0, tuple(range(1, k + 1))), mode='hard')
+        fb = b.fuse_legs(axes=(0, tuple(range(1, k + 1))), mode='hard')
+        if what in ('add', 'sub'):
+            r_ = fa + fb if what == 'add' else fa - fb
+            inter.append(r_)
+            return r_.unfuse_legs(axes=1)
+        if what == 'vdot':
+            return yastn.vdot(fa, fb)
+        return yastn.tensordot(fa, fb.conj(), axes=(1, 1))
+
+    def oracle(c):
+        un = {0: x}
+        un.update({i + 1: yastn.legs_union(la[i], lb[i]) for i in range(k)})
+        da, db = dense(a, un), dense(b, un)
+        if what in ('add', 'sub'):
+            return dict(dense=da + db if what == 'add' else da - db, legs=un, n=n)
+        if what == 'vdot':
+            return dict(number=np.sum(da.conj() * db))
+        axs = tuple(range(1, k + 1))
+        return dict(dense=np.tensordot(da, db.conj(), axes=(axs, axs)), legs={0: x, 1: x.conj()}, n=cfg.sym.zero())
+    return dict(fn=fn, oracle=oracle, operands=[a, b], intermediates=inter, describe=dict(sym=sym, op='relabel_fused', what=what, k=k))
+
+
 def sc_fuse(rng, opts):
     """fuse (hard/meta, nested) ; unfuse restores; operations over fused legs equal operations over original legs"""
     sym, cfg = pick_cfg(rng, opts)
@@ -840,6 +891,8 @@ def sc_fuse(rng, opts):
         return _sc_mixed_unfuse(rng, sym, cfg)
     if op in ('add3', 'vdot', 'norm') and sym != 'dense' and not opts.get('mode') and rng.random() < 0.5:
         return _sc_disjoint_fused(rng, sym, cfg)
+    if op in ('add', 'dot', 'dense') and sym != 'dense' and not opts.get('mode') and rng.random() < 0.5:
+        return _sc_relabel_fused(rng, sym, cfg)
     flat = [x for g in groups for x in (g if isinstance(g, tuple) else (g,))]
     qperm = list(range(len(groups))); rng.shuffle(qperm)
     consume_first = rng.random() < 0.3
